@@ -4,7 +4,7 @@
    capacity at every point).  The end-to-end oracle evaluates the SAME `feasible` on the tours of the solutions the real
    solver returns (tools/props/c01.py); skills, limits and the other static rules are checked there only. *)
 From VRP Require Import Base.Tac Model.Core Spec.Feasible Proofs.CoreTimeP Proofs.CoreEvalP Proofs.CoreRemoveP.
-From VRP Require Import Spec.Valid Proofs.ValidP Proofs.ReachP.
+From VRP Require Import Spec.Intervals Proofs.IntervalsP Spec.Valid Proofs.ValidP Proofs.ReachP.
 
 (* every insertion the evaluator accepts keeps the tour feasible: any matrix, open/closed tours, static and dynamic demand *)
 Theorem C01_accepted_insertion_feasible : forall dur v t idx target,
@@ -60,12 +60,20 @@ Theorem C01_skills_checker_sound_complete : forall vt job,
 Proof. exact skills_ok_iff. Qed.
 
 (* capacity in every further dimension: nothing is reported iff every tour, projected on each extra dimension, is
-   load-feasible for the same independent simulation (Spec.Feasible.load_feasible) that dimension 0 is checked with *)
+   load-feasible for the same independent simulation (per reload interval, Spec.Intervals.ivl_load_feasible; it is
+   Spec.Feasible.load_feasible for a tour without reloads) that dimension 0 is checked with *)
 Theorem C01_capacity_every_dimension : forall P S,
   dims_feasible_viols P S = [] <->
   forall n t d r, nth_error (sl_tours S) n = Some t -> (d < xdims P)%nat ->
-                  rebuild (dim_problem d P) (dim_tour d t) = Some r -> load_feasible (v_cap (rb_veh r)) (rb_acts r) = true.
+                  rebuild (dim_problem d P) (dim_tour d t) = Some r -> ivl_load_feasible (v_cap (rb_veh r)) (rb_acts r) = true.
 Proof. exact dims_feasible_viols_nil. Qed.
+
+(* task order (hard unless a tour-order objective is given): nothing is reported iff along every tour that can be rebuilt the
+   order keys (the order value, or "after everything" for a task without order) of the job activities never decrease *)
+Theorem C01_task_order_checker_sound_complete : forall P S,
+  order_viols P S = [] <->
+  forall n t r, nth_error (sl_tours S) n = Some t -> rebuild (order_problem P) t = Some r -> Sorted (order_seq r).
+Proof. exact order_viols_nil. Qed.
 
 (* reachability, step level: an insertion that passed the gate of ReachableConstraint (prev -> target, target -> next) keeps
    every leg reachable ... *)
@@ -79,3 +87,27 @@ Theorem C01_removal_unreachable_refuted :
   exists (err : Z -> Z -> Z) t idx,
     tour_reachable err t = true /\ (0 < idx < length t)%nat /\ tour_reachable err (remove_at t idx) = false.
 Proof. exact removal_unreachable_refuted. Qed.
+
+(* ---------------------------------------------------------------------------------------------------------------------------
+   Capacity PER RELOAD INTERVAL (Spec/Intervals.v): static deliveries of an interval are on board from its start, static
+   pickups until its end, shipments (dynamic demand) are carried across the reload. *)
+
+(* the executable per-interval checker is sound and complete for the declarative statement: in every interval, starting with
+   what is carried over plus the interval's static deliveries, the load after every prefix of the interval is within capacity *)
+Theorem C01_interval_capacity_checker_sound_complete : forall cap carry iv,
+  ivl_feasible cap carry iv = true <-> IvlOk cap carry iv.
+Proof. exact (fun cap carry iv => ivl_feasible_iff cap iv carry). Qed.
+
+(* without reload activities it IS the simulation the step theorems above are about: `feasible_x` (what the end-to-end checker
+   evaluates, Valid.feasible_viol) = `Spec.Feasible.feasible`, so C01_accepted_insertion_feasible etc. keep their meaning *)
+Theorem C01_single_interval_is_feasible : forall dur v t,
+  forallb (fun a => negb (is_reload a)) t = true -> feasible_x dur v t = feasible dur v t.
+Proof. exact feasible_x_single. Qed.
+
+(* non-vacuity / witness: capacity 2, two trips of two static deliveries are fine per interval (and would not be as one
+   interval); a shipment picked up in the first trip and delivered in the second overloads the second trip (3 on board when
+   leaving the reload place) - the situation of seeded mutant C01-1 *)
+Theorem C01_interval_capacity_examples :
+  ivl_load_feasible 2 ex_two_trips = true /\ load_feasible 2 ex_two_trips = false
+  /\ ivl_load_feasible 2 ex_carry = false /\ ivl_loads_of ex_carry = [1; 0; 1; 3; 2; 1; 0; 0].
+Proof. split; [apply ex_two_trips_ok|]. split; [apply ex_two_trips_ok|]. exact ex_carry_overloaded. Qed.
